@@ -347,10 +347,26 @@ def far_offsets(ctx, rng):
     shutil.rmtree(root, ignore_errors=True)
 
 
+def odd_pre_existing(ctx, rng):
+    """pre-existing trees the commands do not expect: a regular file where an expansion folder would be (RemoveAll has nothing to
+    remove there and succeeds), an empty expansion folder, a movie folder only"""
+    plat = rng.choice([0, 1, 2])
+    e = rng.choice([1, 2, 3])
+    variants = [({"sqpack/ex%d" % e: b"a file, not a folder", "sqpack/ffxiv/keep.me": b"k"}, {"sqpack/ffxiv"}, "file-in-place-of-expansion-folder"),
+                ({"sqpack/ffxiv/keep.me": b"k"}, {"sqpack/ffxiv", "sqpack/ex%d" % e}, "empty-expansion-folder"),
+                ({"movie/ex%d/00001.bk2" % e: b"m", "sqpack/ffxiv/keep.me": b"k"}, {"sqpack/ffxiv"}, "movie-folder-only"),
+                ({"sqpack/ffxiv/keep.me": b"k"}, {"sqpack/ffxiv"}, "expansion-folder-missing")]
+    for files, dirs, label in variants:
+        ops = [dict(op="T", platform=plat), dict(op="FR", expansion=e), dict(op="A", main=0, sub=0, fid=0, off=1, data=rng.randbytes(128), dele=0),
+               dict(op="FA", path="after.txt", offset=0, chunks=[(b"the commands behind RemoveAll are carried out", False)]), dict(op="EOF")]
+        run_patch_list(ctx, rng, [ops], files, dirs, ["odd-tree:" + label, "platform:%s" % zp.PLATFORM_NAMES[plat]], label=label)
+
+
 def shard(ctx):
     rng, P = ctx.rng, ctx.params
     for _ in range(P.get("far", 1)):
         far_offsets(ctx, rng)
+    odd_pre_existing(ctx, rng)
     # bounded-exhaustive part, sharded
     idx = 0
     for plat in (0, 1, 2):
